@@ -221,7 +221,7 @@ def words_inert(s):
        note='whole pipeline, documents of k characters over {a, space, newline, >, -, *, `}, L >= 1 an unbounded symbolic int: same meaning, bound honoured, second reflow is the identity')
 def w4_meaning(c1: int, c2: int, c3: int, c4: int, L: int) -> bool:
     """
-    pre: all_in(W4_ALPH, P('k'), c1, c2, c3, c4) and fixed(c1, 'c1') and fixed(c2, 'c2') and L >= 1
+    pre: fixed(c1, 'c1') and fixed(c2, 'c2') and all_in(W4_ALPH, P('k'), c1, c2, c3, c4) and L >= 1
     pre: words_inert(S(P('k'), c1, c2, c3, c4))
     post: _
     """
